@@ -57,7 +57,7 @@ def reason (s : Store) (o : Op) : String :=
   | _ => match rcOf s o.key with
     | none => (match find s o.key with
       | some c => if c.gen > o.key.gen then "use-after-release(slot-reused)" else "use-after-release"
-      | none => "unknown-handle")
+      | none => "unknown-handle(the-word-is-not-a-reference-to-a-live-or-past-object)")
     | some _ => "use-of-object-with-refcount-0"
 
 structure St where
